@@ -39,12 +39,13 @@ def _build(rnd, big, with_seq, on_chunk):
     cs, ce = (0, L)
     parent = None
     if with_seq:
+        alpha = rnd.choice([Alphabet.NT_EXTENDED_GAPPED, Alphabet.NT_EXTENDED_GAPPED, Alphabet.NT_STRICT,
+                            Alphabet.NT_EXTENDED, Alphabet.NT_STRICT_GAPPED, Alphabet.NT_STRICT_UNKNOWN])
         if on_chunk:
             cs, ce = rnd.randrange(0, 8), L - rnd.randrange(0, 8)
-            parent = seq_chunk_to_parent(R[cs:ce], "chr", cs, ce)
+            parent = seq_chunk_to_parent(R[cs:ce], "chr", cs, ce, alphabet=alpha)
         else:
-            parent = Parent(id="chr", sequence=Sequence(R, Alphabet.NT_EXTENDED_GAPPED, id="chr",
-                                                        type=SequenceType.CHROMOSOME))
+            parent = Parent(id="chr", sequence=Sequence(R, alpha, id="chr", type=SequenceType.CHROMOSOME))
     genes, fcs, vcs = [], [], []
     n = rnd.randrange(1, 7)
     for k in range(n):
@@ -165,7 +166,7 @@ def _events(args):
                 call = lambda: getattr(cur, fn)([c.guid for c in kids])  # noqa
             else:
                 pool = sorted({str(x) for m in allm for x in m.identifiers if isinstance(x, str)} | {"nosuch"})
-                ar = rnd.sample(pool, min(len(pool), rnd.randrange(1, 3)))
+                ar = rnd.sample(pool, min(len(pool), rnd.randrange(1, 5)))
                 op = "idents"
                 call = lambda: cur.query_by_feature_identifiers(ar)  # noqa
             holder = []
